@@ -49,6 +49,7 @@ def make_spec(st, idx, tier):
     else:
         C.add_unrequested_gaps(st, spec, p=0.04)
         C.feed_as_lists_polls(st, spec)
+        C.arrival_polls(st, spec)
     return spec
 
 
@@ -186,6 +187,9 @@ class Checker(C.BaseChecker):
             st.probes["outlier_model_flagged"] += 1
         if ex.spec.get("feed_stats", {}).get("unrequested_gaps"):
             st.probes["night_with_gaps_in_unrequested_columns"] += 1
+        for k_, v_ in (rec.extra.get("arrival") or {}).items():
+            if k_ != "seed":
+                st.probes[f"arrival:{k_}={v_}"] += 1
         if rec.extra.get("feed_passed_as_lists"):
             st.probes["poll_with_the_feed_passed_as_list_of_lists"] += 1
         if rec.extra.get("feed_frame_reused_in_place"):
